@@ -17,6 +17,7 @@ impl Compiler {
     fn arm_identifier(&mut self, name: &String) -> (r: Result<(), Error>)
         requires gen_inv(*old(self))
         ensures
+            r is Ok ==> hstep(old(self).height@, final(self).height@, 1),
             //@VACUITY
             sym_wf(final(self).symbols),
             sym_resolve(old(self).symbols, name@) is None ==> (r matches Err(Error::ReferenceError(_)) && final(self).instructions@ == old(self).instructions@),
@@ -42,6 +43,7 @@ impl Compiler {
     fn arm_let(&mut self, name: &String, value: &Expr) -> (r: Result<(), Error>)
         requires gen_inv(*old(self))
         ensures
+            r is Ok ==> hstep(old(self).height@, final(self).height@, 0),
             //@VACUITY
             sym_wf(final(self).symbols),
             r is Ok ==> ({
@@ -77,6 +79,7 @@ impl Compiler {
     fn arm_assign(&mut self, left: &Box<Expr>, right: &Box<Expr>) -> (r: Result<(), Error>)
         requires gen_inv(*old(self))
         ensures
+            r is Ok ==> hstep(old(self).height@, final(self).height@, 1),
             //@VACUITY
             sym_wf(final(self).symbols),
             (**left matches Expr::Identifier(name) && sym_resolve(old(self).symbols, name@) is None) ==> (r matches Err(Error::ReferenceError(_)) && final(self).instructions@ == old(self).instructions@),
